@@ -434,6 +434,173 @@ pub extern "C" fn cs_fill8_wrap_t1() {
     set_generation(u64::MAX - 3);
 }
 
+// ------------------------------------------------------------------ C16: cache under concurrent stores
+
+pub static CX_CACHE: SCell<Option<arc_swap::cache::Cache<&'static AS, VPtr>>> = SCell::new(None);
+
+/// prologue of thread 1: a cache that currently holds the initial value
+#[no_mangle]
+pub extern "C" fn cs_cache_init_t1() {
+    let mut c = arc_swap::cache::Cache::new(a());
+    let v = c.load();
+    vassert(v.idx() == 0, 27);
+    *CX_CACHE.mu() = Some(c);
+}
+/// thread 1: a store whose completion was observed before the call must be reflected by Cache::load
+#[no_mangle]
+pub extern "C" fn cs_r_cache_rt() {
+    let d0 = DONE.load(SeqCst);
+    let c = CX_CACHE.mu().as_mut().unwrap();
+    let i = {
+        let v = c.load();
+        merge();
+        check_payload(v, 28)
+    };
+    let s1 = STARTED.load(SeqCst);
+    vassert(i >= d0 && i <= s1, 29);
+    cover(15);
+}
+/// final: the cache holds exactly one reference, release it and do the usual accounting
+#[no_mangle]
+pub extern "C" fn cs_final_cache() {
+    *CX_CACHE.mu() = None;
+    cs_final1();
+}
+
+// ------------------------------------------------------------------ C03/C12: helping path, two operations of the reader
+
+/// A = obj0, B = obj2, C (third container, only there to fill fast slots) = obj3; obj1 spare
+pub static CX_C: SCell<Option<AS>> = SCell::new(None);
+#[no_mangle]
+pub extern "C" fn cs_setup3() {
+    cs_setup_pool();
+    *CX_B.mu() = Some(AS::new(pool(2).clone()));
+    *CX_C.mu() = Some(AS::new(pool(3).clone()));
+}
+/// thread 1: all 8 fast slots taken by guards of C
+#[no_mangle]
+pub extern "C" fn cs_fill8c_t1() {
+    for i in 0..8 {
+        *CX_HELD1[i].mu() = Some(CX_C.get().as_ref().unwrap().load());
+    }
+}
+/// C03: a fallback load, then the thread itself stores obj1 into A, then loads again (fallback): the second
+/// load starts after a store that has returned, it must not see anything older
+#[no_mangle]
+pub extern "C" fn cs_r_load_store_load() {
+    let g = a().load();
+    merge();
+    check_payload(&g, 33);
+    drop(g);
+    merge();
+    a().store(pool(1).clone());
+    merge();
+    let g = a().load();
+    merge();
+    let i = check_payload(&g, 34);
+    // the other thread only ever stores obj2 into A: after our own store the value is obj1 or obj2, never obj0
+    vassert(i == 1 || i == 2, 35);
+    drop(g);
+    merge();
+}
+#[no_mangle]
+pub extern "C" fn cs_w_store_a2() {
+    a().store(pool(2).clone());
+    merge();
+}
+/// C12: the reader alternates fallback loads between B and A while a writer of B helps
+#[no_mangle]
+pub extern "C" fn cs_r_load_b_then_a() {
+    let g = b().load();
+    merge();
+    let i = check_payload(&g, 36);
+    vassert(i == 2 || i == 3, 37); // B holds obj2, the writer stores obj3 there
+    drop(g);
+    merge();
+    let g = a().load();
+    merge();
+    let i = check_payload(&g, 38);
+    vassert(i == 0, 39); // nobody writes A: anything else came from another container
+    drop(g);
+    merge();
+}
+#[no_mangle]
+pub extern "C" fn cs_w_store_b_pool3() {
+    b().store(pool(3).clone());
+    merge();
+}
+/// final for the three-container scenarios: give back the slot fillers, then check A, B, C
+#[no_mangle]
+pub extern "C" fn cs_final3() {
+    for i in 0..8 {
+        if let Some(h) = CX_HELD1[i].mu().take() {
+            drop(h);
+        }
+    }
+    vassert(slots_all_empty(), 40);
+    let mut stored = [0usize; POOL];
+    for c in [a(), b(), CX_C.get().as_ref().unwrap()] {
+        let g = c.load();
+        merge();
+        stored[check_payload(&g, 41)] += 1;
+        drop(g);
+        merge();
+    }
+    for i in 0..POOL {
+        vassert(count_of_gated(i) == stored[i] + 1, 50 + i as u32); // + the pool's own handle
+    }
+    cover(13);
+}
+
+// ------------------------------------------------------------------ C06: rcu and address reuse
+
+/// A = obj0, obj1 spare; obj2 and obj3 are unborn (free memory the threads may bring to life)
+#[no_mangle]
+pub extern "C" fn cs_setup_min() {
+    *CX_A.mu() = Some(AS::new(VPtr::create(0, 10)));
+    *CX_SPARE[1].mu() = Some(VPtr::create(1, 11));
+}
+
+/// thread 1: rcu "increment by payload": the new value is obj2 carrying payload(old) + 1
+#[no_mangle]
+pub extern "C" fn cs_w_rcu_payload() {
+    let prev = a().rcu(|v| {
+        let p = v.read();
+        // (re-)create obj2 with the computed payload; a retry re-creates it, the discarded one is dead by then
+        VPtr::create(2, p + 1)
+    });
+    merge();
+    *CX_RES[0].mu() = prev.read() as usize;
+    drop(prev);
+    merge();
+}
+/// thread 2: replaces the value and then stores a NEW value that re-uses the memory of the first one if that
+/// has been freed meanwhile (what an allocator may do): same address, different content
+#[no_mangle]
+pub extern "C" fn cs_w_store_reuse() {
+    a().store(spare(1)); // obj0 loses the container's reference
+    merge();
+    let v = if OBJS[0].count.load(Relaxed) == 0 { VPtr::create(0, 50) } else { VPtr::create(3, 50) };
+    a().store(v);
+    merge();
+}
+/// final: the outcome must be one a serial order of {rcu(+1)} and {store(11); store(50)} can produce
+#[no_mangle]
+pub extern "C" fn cs_final_rcu_reuse() {
+    let g = a().load();
+    merge();
+    let f = g.read();
+    drop(g);
+    merge();
+    let seen = *CX_RES[0].get() as u64;
+    // rcu first: 10 -> 11(obj2) -> 11(obj1) -> 50: final 50, seen 10
+    // rcu between the stores: final 50, seen 11 (rcu installed 12, overwritten)
+    // rcu last: final 51, seen 50
+    vassert((f == 50 && (seen == 10 || seen == 11)) || (f == 51 && seen == 50), 65);
+    vassert(slots_all_empty(), 42);
+    cover(13);
+}
+
 // ------------------------------------------------------------------ C09: solo completion
 
 /// thread 1: has used the crate (prologue), now exits: its node goes to cooldown
